@@ -289,7 +289,11 @@ let print_artifacts (c : compiled) =
   List.iter (fun (nm, i) -> pr "SWITCH %s %d\n" (string_of_name nm) (int_of_nat i)) c.c_program.p_switch
   ;print_gencode c.c_program
 
-let process_def (id : string) (lines : string list) ~(artifacts : bool) =
+let rec process_def (id : string) (lines : string list) ~(artifacts : bool) =
+  let (d, kinds, inputs) = parse_def_lines lines in
+  process_parsed id d kinds inputs ~artifacts
+
+and parse_def_lines (lines : string list) =
   let tops = ref [] and cur_rs = ref None and kinds = ref [] and inputs = ref [] in
   List.iter (fun line ->
     let (cmd, rest) = split_first line in
@@ -321,7 +325,9 @@ let process_def (id : string) (lines : string list) ~(artifacts : bool) =
         let (ctor, cps) = split_first rest in
         inputs := (int_of_string ctor, cps_of_string cps) :: !inputs
     | _ -> failwith ("bad line " ^ line)) lines;
-  let d = List.rev !tops in
+  (List.rev !tops, kinds, inputs)
+
+and process_parsed id d kinds inputs ~artifacts =
   pr "DEF %s\n" id;
   pr "WF %d\n" (if spec_wf d && model_hyps d then 1 else 0);
   let rss = spec_rulesets d in
@@ -459,6 +465,65 @@ let parse_acc_list (s : string) : accval list =
       | None -> (item, None) in
     ((if v = "u" then O else nat_of_int (int_of_string v)), ctx)) (String.split_on_char ',' s)
 
+(* ---- isomorphism between the model's program and the program built from the implementation's dump.
+   The search below is untrusted; its result is verified by the extracted, proved-sound ProgIso.prog_iso_b. ---- *)
+exception No_iso of string
+
+let find_iso_gen (n : int) (succ_pairs : int -> int -> (int * int) list) (seeds : (int * int) list) : nat list =
+  (* succ_pairs s s' : corresponding targets of corresponding states, or raises No_iso *)
+  let f = Array.make n (-1) and used = Array.make n false in
+  let todo = Queue.create () in
+  let link a b =
+    if a < 0 || a >= n || b < 0 || b >= n then raise (No_iso "target out of range");
+    if f.(a) = -1 then begin
+      if used.(b) then raise (No_iso "not injective");
+      f.(a) <- b; used.(b) <- true; Queue.add (a, b) todo
+    end else if f.(a) <> b then raise (No_iso "targets do not correspond") in
+  List.iter (fun (a, b) -> link a b) seeds;
+  while not (Queue.is_empty todo) do
+    let (a, b) = Queue.pop todo in
+    List.iter (fun (x, y) -> link x y) (succ_pairs a b)
+  done;
+  (* states that were not reached (none in practice) get the unused numbers in order *)
+  let free = ref (List.filter (fun i -> not used.(i)) (List.init n (fun i -> i))) in
+  Array.iteri (fun i v -> if v = -1 then (match !free with x :: r -> f.(i) <- x; free := r | [] -> ())) f;
+  List.map nat_of_int (Array.to_list f)
+
+let trans_pairs (t : trans option) (t' : trans option) : (int * int) list =
+  match t, t' with
+  | Some (TGoto a), Some (TGoto b) -> [(int_of_nat a, int_of_nat b)]
+  | Some (TAccept _), Some (TAccept _) | None, None -> []
+  | _ -> raise (No_iso "transition kinds differ")
+
+let find_prog_iso (p : program) (p' : program) (seeds : (int * int) list) : nat list =
+  let a = Array.of_list p.p_states and a' = Array.of_list p'.p_states in
+  if Array.length a <> Array.length a' then raise (No_iso "number of states");
+  find_iso_gen (Array.length a) (fun s s' ->
+    let st = a.(s) and st' = a'.(s') in
+    if List.length st.d_chars <> List.length st'.d_chars || List.length st.d_ranges <> List.length st'.d_ranges
+    then raise (No_iso "transition counts");
+    List.concat (List.map2 (fun (c, t) (c', t') ->
+        if c <> c' then raise (No_iso "character keys"); trans_pairs (Some t) (Some t')) st.d_chars st'.d_chars)
+    @ List.concat (List.map2 (fun r r' ->
+        if r.r_lo <> r'.r_lo || r.r_hi <> r'.r_hi then raise (No_iso "range bounds");
+        trans_pairs (Some r.r_val) (Some r'.r_val)) st.d_ranges st'.d_ranges)
+    @ trans_pairs st.d_any st'.d_any @ trans_pairs st.d_eoi st'.d_eoi) seeds
+
+let find_ctx_iso (d : nat dfa) (d' : nat dfa) : nat list =
+  let a = Array.of_list d and a' = Array.of_list d' in
+  if Array.length a <> Array.length a' then raise (No_iso "number of context states");
+  let opt x y = match x, y with
+    | Some u, Some v -> [(int_of_nat u, int_of_nat v)] | None, None -> [] | _ -> raise (No_iso "context transition kinds") in
+  find_iso_gen (Array.length a) (fun s s' ->
+    let st = a.(s) and st' = a'.(s') in
+    if List.length st.d_chars <> List.length st'.d_chars || List.length st.d_ranges <> List.length st'.d_ranges
+    then raise (No_iso "context transition counts");
+    List.map2 (fun (c, t) (c', t') -> if c <> c' then raise (No_iso "context character keys");
+                (int_of_nat t, int_of_nat t')) st.d_chars st'.d_chars
+    @ List.map2 (fun r r' -> if r.r_lo <> r'.r_lo || r.r_hi <> r'.r_hi then raise (No_iso "context range bounds");
+                  (int_of_nat r.r_val, int_of_nat r'.r_val)) st.d_ranges st'.d_ranges
+    @ opt st.d_any st'.d_any @ opt st.d_eoi st'.d_eoi) [(0, 0)]
+
 let check_dump (id : string) (lines : string list) =
   let arr = Array.of_list lines in
   let n = Array.length arr in
@@ -564,6 +629,15 @@ let check_dump (id : string) (lines : string list) =
     if List.length res <> cnt then failwith "dfa count";
     res in
   let ctx_dfas = ref [] and rs_names = ref [] in
+  (* optional: the definition itself, so that the model's own program can be compared with the dumped one *)
+  let model_def =
+    let rec split acc inside = function
+      | [] -> (List.rev acc, [])
+      | "ENDMODELDEF" :: rest -> (List.rev acc, rest)
+      | l :: rest -> if inside then split (l :: acc) true rest else split acc false rest in
+    match lines with
+    | "MODELDEF" :: rest -> let (dl, _) = split [] true rest in Some dl
+    | _ -> None in
   pr "CHECKED %s\n" id;
   let b x = if x then 1 else 0 in
   (try
@@ -603,6 +677,27 @@ let check_dump (id : string) (lines : string list) =
             | Ok p ->
                 (* side conditions of GenCodeProofs (chars_nodup_b_sound, ctx_code_ok_b_sound) on these automata *)
                 pr "CERT GENCODE charsok=%d ctxok=%d\n" (b (chars_nodup_b p)) (b (List.for_all ctx_code_ok_b p.p_ctxs));
+                (* the dumped program is the model's program up to the names of states: checked by ProgIso.prog_iso_b,
+                   so that impl_program_correct / impl_generated_code_correct apply to exactly this program *)
+                (match model_def with
+                 | None -> ()
+                 | Some dl ->
+                     (try
+                        let (d, _, _) = parse_def_lines dl in
+                        (match model_compile d with
+                         | Panic t -> pr "CERT ISO progiso=0 reason=model-panic-%s\n" (tag_name t)
+                         | Ok c ->
+                             let pm = c.c_program in
+                             let seeds = (0, 0) :: List.filter_map (fun (nm, v) ->
+                               match List.assoc_opt (string_of_name nm) !entries with
+                               | Some v' -> Some (int_of_nat v, int_of_nat v') | None -> None) c.c_entries in
+                             let fl = find_prog_iso pm p seeds in
+                             let gl = (if List.length pm.p_ctxs <> List.length p.p_ctxs then raise (No_iso "number of contexts");
+                                       List.map2 find_ctx_iso pm.p_ctxs p.p_ctxs) in
+                             pr "CERT ISO progiso=%d identity=%d\n" (b (prog_iso_b fl gl pm p))
+                               (b (List.for_all2 (fun x i -> int_of_nat x = i) fl (List.init (List.length fl) (fun i -> i)))))
+                      with No_iso m -> pr "CERT ISO progiso=0 reason=%s\n" (String.map (fun ch -> if ch = ' ' then '-' else ch) m)
+                         | Invalid_argument m -> pr "CERT ISO progiso=0 reason=%s\n" (String.map (fun ch -> if ch = ' ' then '-' else ch) m)));
                 List.iter (fun (nm, v) -> pr "GSWITCH %s %d\n" (string_of_name nm) (int_of_nat v)) p.p_switch;
                 print_gencode p)
        | "RULESET" :: nm :: _ -> (if nm <> "-" then rs_names := nm :: !rs_names); incr i
